@@ -1,14 +1,24 @@
 #!/bin/bash
-# usage: mutest.sh <seeded-id> <prop> [<prop>...]: apply /verif/seeded/<id>/patch.diff to /repo, run the checks, revert.
+# usage: mutest.sh <seeded-id> <prop> [<prop>...]
+# Tries one seeded change against the quick (TIER=thorough: thorough) checks. By default the change is applied to a
+# scratch worktree of /repo's HEAD and the checks are pointed at it (SYMGO_REPO), so /repo itself is never touched;
+# with INPLACE=1 it is applied to /repo (git -C /repo apply), checked, and undone (git -C /repo checkout -- .).
 id=$1; shift
-cd /repo || exit 2
-if ! git diff --quiet; then echo "/repo has uncommitted changes"; exit 2; fi
-if ! git apply /verif/seeded/$id/patch.diff 2>/dev/null; then
-  echo "== mutant $id: patch does not apply to the current tree (the code it changes was repaired since)"; exit 2
+if [ -n "$INPLACE" ]; then
+  wt=/repo
+  cd /repo || exit 2
+  if ! git diff --quiet; then echo "/repo has uncommitted changes"; exit 2; fi
+else
+  wt=/tmp/mutwt-$id-$$
+  git -C /repo worktree add -q --detach $wt HEAD || exit 2
+fi
+cleanup() { if [ -n "$INPLACE" ]; then git -C /repo checkout -- . ; else git -C /repo worktree remove --force $wt; fi; }
+if ! git -C $wt apply /verif/seeded/$id/patch.diff 2>/dev/null; then
+  echo "== mutant $id: patch does not apply to the current tree (the code it changes was repaired since)"; cleanup; exit 2
 fi
 for p in "$@"; do
-  out=$(/verif/bin/symgo check --prop $p --tier ${TIER:-quick} 2>&1); rc=$?
+  out=$(SYMGO_REPO=$wt SYMGO_EVIDENCE_DIR=/tmp/mutev-$id /verif/bin/symgo check --prop $p --tier ${TIER:-quick} 2>&1); rc=$?
   echo "== mutant $id vs $p: exit $rc; $(echo "$out" | grep -c '^VIOLATION') VIOLATION lines; $(echo "$out" | grep -c '^BROKEN') BROKEN lines"
   echo "$out" | grep "^VIOLATION\|^BROKEN" | head -3 | cut -c1-300
 done
-git -C /repo checkout -- . ; git -C /repo status --short | head -3
+cleanup; rm -rf /tmp/mutev-$id
